@@ -314,6 +314,259 @@ func runYANG(cases []Case) (outs [][]string) {
 	return outs
 }
 
+
+// ---------------------------------------------------------------- union-member placements
+
+// UCase: the last restriction of a chain placed on a *member of a union* whose earlier member is the
+// unrestricted parent type (a built-in type or the typedef the chain has reached).  An invalid
+// restriction must be reported there exactly as it is on a leaf or typedef of its own; an accepted
+// one must give the member the same range.  Union: 1 = second member in a leaf's union, 2 = third
+// member after an unrelated first member, 3 = the union sits in a typedef, 4 = a further member follows.
+type UCase struct {
+	Case
+	Union int `json:"union"`
+}
+
+// errorsByLine maps errors "m.yang:<line>:…: bad range|bad length|negative length: …" to their class.
+func errorsByLine(errs []error) map[int]string {
+	out := map[int]string{}
+	for _, e := range errs {
+		m := errLine.FindStringSubmatch(e.Error())
+		if m == nil {
+			continue
+		}
+		if !strings.Contains(e.Error(), ": bad range: ") && !strings.Contains(e.Error(), ": bad length: ") && !strings.Contains(e.Error(), ": negative length: ") {
+			continue
+		}
+		ln, _ := strconv.Atoi(m[1])
+		cl := classify(m[2])
+		if strings.Contains(e.Error(), ": negative length: ") {
+			cl = "negLength"
+		}
+		if _, ok := out[ln]; !ok {
+			out[ln] = cl
+		}
+	}
+	return out
+}
+
+func runUnion(cases []UCase) (outs []string) {
+	outs = make([]string, len(cases))
+	defer func() {
+		if p := recover(); p != nil {
+			for i := range outs {
+				if outs[i] == "" {
+					outs[i] = fmt.Sprintf("panic %v %s", p, firstLines(string(debug.Stack()), 12))
+				}
+			}
+		}
+	}()
+	var sb strings.Builder
+	sb.WriteString("module m { namespace \"urn:m\"; prefix m;\n")
+	line := 2
+	unionLine := make([]int, len(cases))
+	for i, c := range cases {
+		n := len(c.Steps)
+		kw := "range"
+		baseType := c.Base
+		fdStmt := ""
+		switch c.Mode {
+		case "len":
+			kw, baseType = "length", "string"
+		case "dec":
+			baseType = "decimal64"
+			fdStmt = fmt.Sprintf("fraction-digits %d; ", c.Fd)
+		}
+		for k := 0; k < n-1; k++ {
+			t := text(c.Steps[k])
+			if k == 0 {
+				fmt.Fprintf(&sb, "typedef c%d_%d { type %s { %s%s '%s'; } }\n", i, k+1, baseType, fdStmt, kw, t)
+			} else {
+				fmt.Fprintf(&sb, "typedef c%d_%d { type c%d_%d { %s '%s'; } }\n", i, k+1, i, k, kw, t)
+			}
+			line += 1 + strings.Count(t, "\n")
+		}
+		t := text(c.Steps[n-1])
+		var pMember, rMember string
+		switch {
+		case n >= 2:
+			pMember = fmt.Sprintf("type c%d_%d;", i, n-1)
+			rMember = fmt.Sprintf("type c%d_%d { %s '%s'; }", i, n-1, kw, t)
+		case c.Union%2 == 1:
+			// the built-in type itself
+			if c.Mode == "dec" {
+				pMember = fmt.Sprintf("type decimal64 { %s}", fdStmt)
+			} else {
+				pMember = fmt.Sprintf("type %s;", baseType)
+			}
+			rMember = fmt.Sprintf("type %s { %s%s '%s'; }", baseType, fdStmt, kw, t)
+		default:
+			// an unrestricted typedef of the built-in type
+			if c.Mode == "dec" {
+				fmt.Fprintf(&sb, "typedef p%d { type decimal64 { %s} }\n", i, fdStmt)
+			} else {
+				fmt.Fprintf(&sb, "typedef p%d { type %s; }\n", i, baseType)
+			}
+			line++
+			pMember = fmt.Sprintf("type p%d;", i)
+			rMember = fmt.Sprintf("type p%d { %s '%s'; }", i, kw, t)
+		}
+		unionLine[i] = line
+		switch c.Union {
+		case 2:
+			fmt.Fprintf(&sb, "leaf u%d { type union { type boolean; %s %s } }\n", i, pMember, rMember)
+		case 3:
+			fmt.Fprintf(&sb, "typedef tu%d { type union { %s %s } } leaf u%d { type tu%d; }\n", i, pMember, rMember, i, i)
+		case 4:
+			fmt.Fprintf(&sb, "leaf u%d { type union { %s %s type boolean; } }\n", i, pMember, rMember)
+		default:
+			fmt.Fprintf(&sb, "leaf u%d { type union { %s %s } }\n", i, pMember, rMember)
+		}
+		line += 1 + strings.Count(t, "\n")
+	}
+	sb.WriteString("}\n")
+	ms := yang.NewModules()
+	if err := ms.Parse(sb.String(), "m.yang"); err != nil {
+		for i := range outs {
+			outs[i] = "parse-error " + firstLines(err.Error(), 2)
+		}
+		return outs
+	}
+	errs := ms.Process()
+	mod := ms.Modules["m"]
+	if mod == nil {
+		for i := range outs {
+			outs[i] = "no-module"
+		}
+		return outs
+	}
+	root := yang.ToEntry(mod)
+	// Process stops before building entries when a typedef has errors: the errors recorded on the
+	// entries (leaf types) are collected here as well
+	errs = append(errs, root.GetErrors()...)
+	byLine := errorsByLine(errs)
+	for i, c := range cases {
+		if cl, ok := byLine[unionLine[i]]; ok {
+			outs[i] = "err " + cl
+			continue
+		}
+		e := root.Dir[fmt.Sprintf("u%d", i)]
+		if e == nil || e.Type == nil {
+			outs[i] = "no-type"
+			continue
+		}
+		members := e.Type.Type
+		full, idxP := 2, 0
+		switch c.Union {
+		case 2:
+			full, idxP = 3, 1
+		case 4:
+			full = 3
+		}
+		var m *yang.YangType
+		switch len(members) {
+		case full:
+			m = members[idxP+1]
+		case full - 1:
+			m = members[idxP] // the restricted member equals the parent type and was not listed again
+		default:
+			outs[i] = fmt.Sprintf("bad-members %d", len(members))
+			continue
+		}
+		if c.Mode == "len" {
+			outs[i] = okOut(m.Length)
+		} else {
+			outs[i] = okOut(m.Range)
+		}
+	}
+	return outs
+}
+
+func runUnions(cases []UCase, procs int) []string {
+	outs := make([]string, len(cases))
+	const batch = 64
+	var wg sync.WaitGroup
+	sem := make(chan struct{}, procs)
+	for lo := 0; lo < len(cases); lo += batch {
+		hi := lo + batch
+		if hi > len(cases) {
+			hi = len(cases)
+		}
+		wg.Add(1)
+		sem <- struct{}{}
+		go func(lo, hi int) {
+			defer wg.Done()
+			defer func() { <-sem }()
+			copy(outs[lo:hi], runUnion(cases[lo:hi]))
+		}(lo, hi)
+	}
+	wg.Wait()
+	return outs
+}
+
+// unionSpecRequest judges the observed outcome of the restricted member; parent = the set before the last step.
+func unionSpecRequest(c UCase, parent, observed string) string {
+	f := strings.Fields(observed)
+	outcome := ""
+	switch {
+	case len(f) >= 2 && f[0] == "ok":
+		outcome = f[1]
+	case len(f) >= 1 && f[0] == "err":
+		outcome = "err"
+	default:
+		return ""
+	}
+	return fmt.Sprintf("spec.step %s %s %d %s %s", parent, c.Mode, c.Fd, c.Steps[len(c.Steps)-1], outcome)
+}
+
+// parentOfLast: the set the last step of a chain restricts, from the Go outcomes of the steps before it
+// ("" when an earlier step did not succeed).
+func parentOfLast(c Case, goOut []string) string {
+	n := len(c.Steps)
+	if len(goOut) != n {
+		return ""
+	}
+	for k := 0; k < n-1; k++ {
+		if !strings.HasPrefix(goOut[k], "ok ") {
+			return ""
+		}
+	}
+	if !strings.HasPrefix(goOut[n-1], "ok ") && !strings.HasPrefix(goOut[n-1], "err ") {
+		return ""
+	}
+	if n == 1 {
+		return baseRaw(c)
+	}
+	return strings.Fields(goOut[n-2])[1]
+}
+
+func lastStep(chainAnswer string) string {
+	parts := strings.Split(chainAnswer, " ; ")
+	return parts[len(parts)-1]
+}
+
+// the witnesses of the seeded change C10-b2 (errors of a union member dropped when the member is
+// taken for a duplicate of the unrestricted parent) and a few accepted counterparts
+func genUnionCorpus() []Case {
+	var cs []Case
+	addCase(&cs, "int", "uint8", 0, "0..300")
+	addCase(&cs, "int", "int32", 0, "10..1")
+	addCase(&cs, "int", "int64", 0, "1..2..3")
+	addCase(&cs, "len", "nil", 0, "5..2")
+	addCase(&cs, "int", "uint8", 0, "0..100", "0..200")
+	addCase(&cs, "dec", "dec", 3, "0..1", "0..1.001")
+	addCase(&cs, "int", "uint8", 0, "0..100", "0..50")
+	addCase(&cs, "int", "uint8", 0, "min..max")
+	addCase(&cs, "int", "uint8", 0, "-0..255")
+	addCase(&cs, "len", "nil", 0, "1..10", "2..5|7")
+	addCase(&cs, "len", "nil", 0, "-0")
+	addCase(&cs, "dec", "dec", 3, "0..1", "0.001..0.999")
+	addCase(&cs, "dec", "dec", 2, "1.005")
+	addCase(&cs, "int", "int8", 0, "")
+	addCase(&cs, "int", "int8", 0, "1|")
+	return cs
+}
+
 func firstLines(s string, n int) string {
 	l := strings.Split(s, "\n")
 	if len(l) > n {
@@ -1244,21 +1497,32 @@ func main() {
 	type section struct {
 		name  string
 		cases []Case
+		// every stride-th chain with a parent is also placed on a union member (0 = never; -1 = every
+		// chain in all four placements)
+		stride int
+	}
+	q := func(quick, thorough int) int {
+		if th {
+			return thorough
+		}
+		return quick
 	}
 	nr := 30000
 	if th {
 		nr = 400000
 	}
 	secs := []section{
-		{"int_api_grid", genIntAPI(th)},
-		{"syntax_variants", genSyntax(th)},
-		{"int_parent_grid", genIntParents(th)},
-		{"length_grid", genLengths(th)},
-		{"decimal_grid", genDecimal(th)},
-		{"random_chains", genRandom(f.Rand(1), nr)},
-		{"random_ordered_chains", genRandomOrdered(f.Rand(2), nr)},
-		{"malformed", genMalformed(f.Rand(3), nr)},
+		{"union_corpus", genUnionCorpus(), -1},
+		{"int_api_grid", genIntAPI(th), 0},
+		{"syntax_variants", genSyntax(th), 1},
+		{"int_parent_grid", genIntParents(th), q(8, 16)},
+		{"length_grid", genLengths(th), q(4, 2)},
+		{"decimal_grid", genDecimal(th), q(8, 8)},
+		{"random_chains", genRandom(f.Rand(1), nr), q(1, 2)},
+		{"random_ordered_chains", genRandomOrdered(f.Rand(2), nr), q(1, 2)},
+		{"malformed", genMalformed(f.Rand(3), nr), q(1, 2)},
 	}
+	var unionCases, unionRejected int64
 	distinct := lib.NewDistinct()
 	var nontriv, evals int64
 	okSteps, errSteps := int64(0), int64(0)
@@ -1327,6 +1591,80 @@ func main() {
 			if i%(len(cases)/2+1) == 1 {
 				res.AddSample(map[string]any{"section": sec.name, "case": describe(c), "go": g, "model": ans[i]})
 			}
+		}
+		// union-member placements of the last step
+		if sec.stride != 0 {
+			var ucs []UCase
+			var uparent, umodel []string
+			sel := 0
+			for i, c := range cases {
+				if c.Base == "none" {
+					continue
+				}
+				par := parentOfLast(c, goOuts[i])
+				if par == "" {
+					continue
+				}
+				sel++
+				if sec.stride > 0 && sel%sec.stride != 0 {
+					continue
+				}
+				vs := []int{1 + (sel/maxInt(sec.stride, 1))%4}
+				if sec.stride < 0 {
+					vs = []int{1, 2, 3, 4}
+				}
+				for _, v := range vs {
+					ucs = append(ucs, UCase{Case: c, Union: v})
+					uparent = append(uparent, par)
+					umodel = append(umodel, lastStep(ans[i]))
+				}
+			}
+			uout := runUnions(ucs, f.Procs)
+			var ureqs []string
+			uidx := make([]int, len(ucs))
+			for j, uc := range ucs {
+				uidx[j] = -1
+				if r := unionSpecRequest(uc, uparent[j], uout[j]); r != "" {
+					uidx[j] = len(ureqs)
+					ureqs = append(ureqs, r)
+				}
+			}
+			uans, err := lib.ParBatch(f.Driver, ureqs, f.Procs)
+			if err != nil {
+				lib.Fatal("driver (spec, unions): %v", err)
+			}
+			for j, uc := range ucs {
+				if strings.HasPrefix(uout[j], "err ") {
+					unionRejected++
+				}
+				in := describe(uc.Case)
+				in["union_placement"] = uc.Union
+				if strings.HasPrefix(uout[j], "panic") {
+					found = append(found, lib.Disagreement{Kind: "crash", Input: in, Go: uout[j], Model: umodel[j], SpecVerdict: "violates",
+						What: "the range code panicked on a union member", Replay: uc})
+					continue
+				}
+				verdict, why := "", "go outcome could not be interpreted"
+				if uidx[j] >= 0 {
+					verdict, why = "holds", ""
+					if uans[uidx[j]] != "holds" {
+						verdict, why = "violates", uans[uidx[j]]
+					}
+				}
+				if uout[j] != umodel[j] {
+					found = append(found, lib.Disagreement{Kind: "correspondence", Input: in, Go: uout[j], Model: umodel[j], SpecVerdict: verdict,
+						What: "restriction on a union member whose earlier member is the unrestricted parent type: outcome differs from the model's outcome for the same restriction (" + sec.name + "); spec on the Go outcome: " + verdict + " " + why, Replay: uc})
+				} else if verdict != "holds" {
+					found = append(found, lib.Disagreement{Kind: "spec", Input: in, Go: uout[j], Model: umodel[j], SpecVerdict: "violates",
+						What: "restriction on a union member: the outcome violates the specification (" + sec.name + "): " + why, Replay: uc})
+				}
+				if distinct.Add("union " + strconv.Itoa(uc.Union) + " " + uc.key()) {
+					nontriv++
+				}
+			}
+			unionCases += int64(len(ucs))
+			evals += int64(len(ucs))
+			res.Distribution["union_cases_"+sec.name] = len(ucs)
 		}
 		sort.SliceStable(found, func(a, b int) bool {
 			return found[a].SpecVerdict == "violates" && found[b].SpecVerdict != "violates"
@@ -1408,6 +1746,8 @@ func main() {
 	res.Distribution["contains_pairs_checked_against_spec"] = sdcPairs
 	res.Distribution["steps_accepted"] = okSteps
 	res.Distribution["steps_rejected"] = errSteps
+	res.Distribution["union_member_placements"] = unionCases
+	res.Distribution["union_member_placements_rejected"] = unionRejected
 	for d, n := range depthHist {
 		res.Distribution[fmt.Sprintf("chains_with_%d_accepted_steps", d)] = n
 	}
@@ -1415,8 +1755,15 @@ func main() {
 	res.Evaluations = evals
 	res.DistinctNontrivial = nontriv
 	res.Exhaustive = true
-	res.Rule = "restriction chains = (mode int|dec|len, base type or none, fraction-digits, list of restriction texts); exhaustive grids: all texts of 1 part (and of 2 and 3 parts over smaller sets) with bounds from {min, max, 0, -0, +-1, every integer type's limits and limits+-1, 2^63-1, 2^63, 2^64-1, 2^64} called directly and under each of the 8 integer types x 8 (thorough 12) earlier restrictions of it through YANG typedef chains; the same for lengths and for decimal64 at fraction-digits 1, 2, 17, 18 (thorough: 1..18); literal-syntax tokens (white space incl. Unicode, base-0 literals, underscores, signs, keywords, 1..6 dots, empty parts) in all pairs; seeded random chains of depth 1..4, ordered random chains, random texts over the grammar's alphabet; exported methods Contains/Equal/Validate/Sort/String on all lists of <= 2 parts over {0..4} (Contains: all pairs), over a signed universe with -0, over the 64-bit extremes at fd 0, 1, 18, all lists of 3 parts over {0..3}, random lists. Every Go outcome is compared with the model and judged by the executable specification. distinct_nontrivial = distinct inputs that have more than one part, a min/max keyword or more than one step (chains), or a list of more than one part (methods)"
+	res.Rule = "restriction chains = (mode int|dec|len, base type or none, fraction-digits, list of restriction texts); exhaustive grids: all texts of 1 part (and of 2 and 3 parts over smaller sets) with bounds from {min, max, 0, -0, +-1, every integer type's limits and limits+-1, 2^63-1, 2^63, 2^64-1, 2^64} called directly and under each of the 8 integer types x 8 (thorough 12) earlier restrictions of it through YANG typedef chains; the same for lengths and for decimal64 at fraction-digits 1, 2, 17, 18 (thorough: 1..18); literal-syntax tokens (white space incl. Unicode, base-0 literals, underscores, signs, keywords, 1..6 dots, empty parts) in all pairs; seeded random chains of depth 1..4, ordered random chains, random texts over the grammar's alphabet; every stride-th chain with a parent (all of the syntax tokens and random chains) is run once more with its last restriction placed on a member of a union whose earlier member is the unrestricted parent type (built-in or typedef; 2nd member, 3rd member, union inside a typedef, further member after it): error and range must be those of the plain placement; exported methods Contains/Equal/Validate/Sort/String on all lists of <= 2 parts over {0..4} (Contains: all pairs), over a signed universe with -0, over the 64-bit extremes at fd 0, 1, 18, all lists of 3 parts over {0..3}, random lists. Every Go outcome is compared with the model and judged by the executable specification. distinct_nontrivial = distinct inputs that have more than one part, a min/max keyword or more than one step (chains), or a list of more than one part (methods)"
 	res.Write(f.Out)
+}
+
+func maxInt(a, b int) int {
+	if a > b {
+		return a
+	}
+	return b
 }
 
 func describe(c Case) map[string]any {
@@ -1453,6 +1800,31 @@ func replay(f *lib.Flags, d *lib.Driver) {
 		}
 		fmt.Printf("input: %+v\ngo:    %s\nmodel: %s\nspec:  %s\n", m, g, a, sv)
 		if g != a || (sv != "-" && sv != "na" && sv != g) {
+			os.Exit(1)
+		}
+		return
+	}
+	if u, ok := probe["union"]; ok && u != nil && u.(float64) != 0 {
+		var uc UCase
+		if err := json.Unmarshal(p.Disagreement.Replay, &uc); err != nil {
+			lib.Fatal("%v", err)
+		}
+		res := lib.NewResult("C10", f)
+		initDecBases(d, res)
+		chain := runGo([]Case{uc.Case}, 1)[0]
+		par := parentOfLast(uc.Case, chain)
+		a, _ := d.Ask(uc.Case.request())
+		g := runUnion([]UCase{uc})[0]
+		sv := "not evaluated (an earlier step of the chain fails)"
+		if par != "" {
+			if r := unionSpecRequest(uc, par, g); r != "" {
+				sv, _ = d.Ask(r)
+			}
+		}
+		in := describe(uc.Case)
+		in["union_placement"] = uc.Union
+		fmt.Printf("input: %v\ngo (union member): %s\nmodel (same restriction): %s\nspec:  %s\n", in, g, lastStep(a), sv)
+		if g != lastStep(a) || sv != "holds" {
 			os.Exit(1)
 		}
 		return
